@@ -355,8 +355,50 @@ def body(ck, rng, work, thorough, model_ok):
                               "model_lint": l_out[j["l"]] if j["l"] is not None else None,
                               "theorems": ["C20_exit_status", "C20_exit", "C20_lint", "C20_dispatch_*"],
                               "replay_cmd": "cd <dir with the script> && %s %s ; echo $?" % (DUCK, " ".join(repr(a) for a in j["args"]))})
+    # --- scripts whose output is written by the runtime AND by child processes that inherit stdout (exec without an
+    # output variable): "printing the same output" includes its order.  The in-process harness cannot host such a child
+    # (its stdout is the result channel), so the oracle is the program order itself: echo lines and child lines
+    # alternate exactly as the instructions do; a final `exit <n>` adds the non-zero status and the Error: line.
+    child_jobs = []
+    echo_bin = shutil.which("echo")
+    if echo_bin:
+        for c in range(40 if thorough else 12):
+            k += 1
+            lines, want = [], []
+            for jn in range(rng.randint(2, 7)):
+                if rng.random() < 0.5:
+                    lines.append("echo MARK%d_%d" % (k, jn))
+                    want.append("MARK%d_%d" % (k, jn))
+                else:
+                    lines.append("exec %s CHILD%d_%d" % (echo_bin, k, jn))
+                    want.append("CHILD%d_%d" % (k, jn))
+            fail = rng.random() < 0.3
+            if fail:
+                lines.append("exit 3")
+            text = "\n".join(lines) + "\n"
+            d = mkdir(k)
+            open(os.path.join(d, "child.ds"), "w").write(text)
+            for a in (["child.ds"], ["-e", text]):
+                child_jobs.append({"args": a, "cwd": d, "stdin": None, "text": text, "want": want, "fail": fail})
+        with ThreadPoolExecutor(max_workers=16) as ex:
+            cres = list(ex.map(run_duck, [(j["args"], j["cwd"], j["stdin"]) for j in child_jobs]))
+        for j, (rc, out) in zip(child_jobs, cres):
+            got = [l.strip() for l in out.split("\n") if l.strip()]
+            body_lines = [l for l in got if not l.startswith("Error:")]
+            ok = body_lines == j["want"] and ((rc != 0 and got and got[-1].startswith("Error:")) if j["fail"]
+                                               else (rc == 0 and len(got) == len(body_lines)))
+            nontriv.add(("CHILD", j["text"]))
+            if not ok:
+                found = True
+                if len(ck.violations) < 5:
+                    ck.violation({"kind": "output written by the runtime and by child processes is not in program order / wrong status",
+                                  "seed": ck.seed, "args": j["args"], "script": j["text"],
+                                  "expected_lines_in_order": j["want"], "expected_failure": j["fail"],
+                                  "executable(status, stdout)": [rc, out], "theorems": ["C20_exit_status", "C20_error_line"],
+                                  "replay_cmd": "cd <dir with child.ds> && %s %s ; echo $?" % (DUCK, " ".join(repr(a) for a in j["args"]))})
+    dist["child_output_scripts"] = len(child_jobs)
     ck.coverage.update({
-        "evaluations": len(jobs),
+        "evaluations": len(jobs) + len(child_jobs),
         "distinct_nontrivial": len(nontriv),
         "rule": "every job is one run of the executable; non-trivial = distinct (action, library verdict, library output, message) for "
                 "run forms, distinct lint script for lint forms. Scripts: succeeding (incl. exit / exit 0 / exit abc), exit <non-zero>, "
